@@ -10,11 +10,12 @@ pub mod c11;
 pub mod c12;
 pub mod c14;
 pub mod c15;
+pub mod c16;
 pub mod c19;
 pub mod c20;
 pub mod gprog;
 
-pub const ALL: &[&str] = &["C01", "C02", "C04", "C05", "C11", "C12", "C14", "C15", "C19", "C20"];
+pub const ALL: &[&str] = &["C01", "C02", "C04", "C05", "C11", "C12", "C14", "C15", "C16", "C19", "C20"];
 
 pub fn intern(id: &str) -> Option<&'static str> {
     ALL.iter().copied().find(|p| *p == id)
@@ -37,6 +38,7 @@ pub fn meta(prop: &str) -> Option<Meta> {
         "C12" => Some(c12::meta()),
         "C14" => Some(c14::meta()),
         "C15" => Some(c15::meta()),
+        "C16" => Some(c16::meta()),
         "C19" => Some(c19::meta()),
         "C20" => Some(c20::meta()),
         _ => None,
@@ -53,6 +55,7 @@ pub fn spaces(prop: &str, tier: Tier, seed: u64) -> Vec<Box<dyn Space>> {
         "C12" => c12::spaces(tier, seed),
         "C14" => c14::spaces(tier, seed),
         "C15" => c15::spaces(tier, seed),
+        "C16" => c16::spaces(tier, seed),
         "C19" => c19::spaces(tier, seed),
         "C20" => c20::spaces(tier, seed),
         _ => Vec::new(),
